@@ -23,7 +23,7 @@ RULE = 'KIND'
 FLOOR = 30
 ANCHORS = ['ExplicitTreeAutCore::TranslateDownward', 'ExplicitTreeAutCore::TranslateUpward', 'ExplicitTreeAutCore::ReindexStates',
            'ExplicitFiniteAutCore::ReindexStates']
-SCOPE = ('TranslateDownward', 'TranslateUpward', 'ReindexStates', 'TranslateSymbols', 'CollapseStates', 'BuildStateIndex',
+SCOPE = ('TranslateSymbols', 'TranslateDownward', 'TranslateUpward', 'ReindexStates', 'TranslateSymbols', 'CollapseStates', 'BuildStateIndex',
          'TranslateForward', 'TranslateBackward', 'Translate')
 UL = 'unsigned long'
 
@@ -61,7 +61,7 @@ class Kinds:
             return None
         if all(k == ks[0] for k in ks):
             return ks[0]
-        if all(isinstance(k, tuple) and k[0] == 'T' or k == 'Aux' for k in ks):
+        if all(isinstance(k, tuple) and k[0] in ('T', 'T?') or k == 'Aux' for k in ks):
             return ('T', ('several', 'translators/counters'))
         return 'MIXED'
 
@@ -158,7 +158,9 @@ class Kinds:
             xr = root_path(x) or ('?',)
             if ak == 'Sym':
                 return ('TS', xr)
-            return ('T', xr)
+            if ak == 'A' or (isinstance(ak, tuple) and ak[0] == 'T'):
+                return ('T', xr)
+            return ('T?', xr)   # translated value of an argument whose kind is unresolved
         if k == 'MemberExpr' and e.get('ch'):
             base = strip(e['ch'][0]) or e['ch'][0]
             bt = self.unit.ty(base)
@@ -206,9 +208,37 @@ def kname(k):
     return k
 
 
+ROLE_SCOPE = ('RemoveUselessStates', 'GetCandidateTree', 'TranslateSymbols', 'ReindexStates', 'CopyTransitionsFrom', 'RemoveUnreachableStates')
+
+
+def run_roles(unit, fn, em):
+    """rule-copying functions keep symbol and parent roles: internalAddTransition/AddTransition(children, symbol, parent)"""
+    K = Kinds(unit, fn)
+    for c in fn.calls():
+        if method_name(c) not in ('internalAddTransition', 'AddTransition') or len(c.get('args', [])) != 3:
+            continue
+        if 'ExplicitTreeAut' not in (c.get('q') or ''):
+            continue
+        ks, kp = K.expr(c['args'][1]), K.expr(c['args'][2])
+        txt = unit.text(c, 90)
+        bad = None
+        if ks == 'A' or (isinstance(ks, tuple) and ks[0] == 'T'):
+            bad = 'a state (%s) is passed where the symbol goes' % kname(ks)
+        elif kp == 'Sym' or (isinstance(kp, tuple) and kp[0] == 'TS'):
+            bad = 'a symbol (%s) is passed where the parent state goes' % kname(kp)
+        if bad:
+            em.violation(c, txt, 'role swap in a copied rule: ' + bad, 'role')
+        elif ks is None and kp is None:
+            em.unknown(c, txt, 'roles not resolved', 'role')
+        else:
+            em.ok(c, txt, 'symbol is %s, parent is %s' % (kname(ks), kname(kp)), 'role')
+
+
 def run(unit, em):
     for fn in unit.functions:
         name = fn.q.split('::')[-1]
+        if fn.body is not None and name in ROLE_SCOPE and 'explicit_tree' in fn.file:
+            run_roles(unit, fn, em)
         if fn.body is None or name not in SCOPE:
             continue
         if not ('explicit_' in fn.file or 'bdd_' in fn.file):
@@ -240,6 +270,17 @@ def run(unit, em):
                 continue
             m = method_name(n)
             args = n.get('args', [])
+            # (4) a translated key must be merged, not inserted: images of different keys may coincide
+            if m in ('insert', 'emplace') and len(args) == 1:
+                ot = unit.ty(strip(n.get('obj')) or n['obj']).replace('const ', '')
+                a0 = strip(args[0])
+                if ('TransitionCluster' in ot or 'StateToTransitionClusterMap' in ot) and a0 is not None and a0['k'] == 'CallExpr' and a0.get('q') == 'std::make_pair' and a0.get('args'):
+                    kk = K.expr(a0['args'][0])
+                    txt = unit.text(n, 90)
+                    if isinstance(kk, tuple) and kk[0] in ('T', 'TS', 'T?'):
+                        em.violation(n, txt, 'a rule store entry is insert()ed under a translated key (%s): when two keys have the same image the second insert is ignored and its rules are dropped; merge through unique*() instead' % kname(kk), 'collide')
+                    else:
+                        em.ok(n, txt, 'key is not a translated value', 'collide')
             sinks = []
             if m == 'addTransition' and 'ExplicitLTS' in unit.ty(strip(n.get('obj')) or n.get('obj')) and len(args) == 3:
                 sinks = [(args[0], 'LTS source node'), (args[2], 'LTS target node')]
